@@ -21,6 +21,7 @@ pub fn dispatch(cmd: &str) -> Option<Handler> {
         "diag" => diag_cmd,
         "rerun" => rerun_cmd,
         "repeat" => repeat_cmd,
+        "order" => order_cmd,
         _ => return None,
     })
 }
@@ -328,4 +329,27 @@ fn repeat_cmd(a: &[&str]) -> String {
     }
     out.push("END".to_string());
     out.join(" ")
+}
+
+/// `order <store> <base>`: the items in the order the passes produced them (U[...]) and after
+/// `DiagnosticItem::sort_for_output` (S[...]); an item is `O(<sev> <title> <description> <file name> <range>)`.
+fn order_cmd(a: &[&str]) -> String {
+    use riscv_analysis::reader::FileReader;
+    let (reader, base) = decode_store(a);
+    let mut parser = RVParser::new(reader);
+    let (nodes, errs) = parser.parse_from_file(&base, false);
+    let (items, _cfg) = items_of(nodes, &errs);
+    let show = |v: &[DiagnosticItem], r: &MemReader| -> String {
+        v.iter()
+            .map(|d| {
+                format!("O({} {} {} {} {})", sev(&d.level), enc_str(&d.title), enc_str(&d.description),
+                    r.get_filename(d.file).map_or("~".to_string(), |f: String| enc_str(&f)), show_range(&d.range).replace(' ', "-"))
+            })
+            .collect::<Vec<_>>()
+            .join(" ")
+    };
+    let unsorted = show(&items, &parser.reader);
+    let mut sorted = items.clone();
+    DiagnosticItem::sort_for_output(&mut sorted, &parser.reader);
+    format!("U[{}] S[{}] END", unsorted, show(&sorted, &parser.reader))
 }
